@@ -31,6 +31,7 @@ typed value text: `ok[cls=val,…]` (val as `=`code points), `err`, `via`, `none
 -/
 import EPV.Proto
 import EPV.Props.C20
+import EPV.Props.C20All
 open EPV.Proto EPV.Xsd EPV.Xsd.Spec EPV.Xsd.Sel EPV.C20
 
 abbrev P (α : Type) := List String → Option (α × List String)
@@ -378,4 +379,21 @@ def answer (line : String) : String :=
       | _ => "bad-line-T"
   | [] => "bad-line"
 
-def main : IO Unit := mainLoop answer
+/-- phase 5, direct decoder probe: `"DEC" stype str` → the model's `get_atomic_sequence(type, text)`, the
+specification value `Spec.decode`, the number of tokens of the text, and whether the text keeps a
+white-space character under `strip` / `collapse` (the two facts of `pyDecode_eq_xsdLex_all`) -/
+def answerDec (toks : List String) : String :=
+  match pSType toks with
+  | some (t, [txt]) =>
+    match decStr txt with
+    | some text =>
+      s!"M={showTV (atomicSequence isValid t text)}|S={showSpec (decode t text)}|W={(splitWs text).length}|SW={if noWsL (strip text).toList then 0 else 1}|CW={if noWsL (collapse text).toList then 0 else 1}"
+    | none => "bad-text"
+  | _ => "bad-dec"
+
+def answerAll (line : String) : String :=
+  match (line.splitOn " ").filter (· ≠ "") with
+  | "DEC" :: r => answerDec r
+  | _ => answer line
+
+def main : IO Unit := mainLoop answerAll
